@@ -51,10 +51,10 @@ func TestVerifC09EndToEnd(t *testing.T) {
 			t.Fatalf("open failed: %v", vf.Err())
 		}
 		type span struct {
-			path      string
-			end       int // day number of the recorded end per the calendar model
-			sum       int64
-			original  []byte
+			path     string
+			end      int // day number of the recorded end per the calendar model
+			sum      int64
+			original []byte
 		}
 		_, e0 := vmodel.Span(day0, digit)
 		spans := []*span{{path: vf.Path(), end: e0}}
